@@ -32,9 +32,15 @@ fn main() {
         "C05" => drive(&props::c05::C05, tier, seed, replay),
         "C06" => drive(&props::c06::C06, tier, seed, replay),
         "C07" => drive(&props::c07::C07, tier, seed, replay),
+        "C08" => drive(&props::c08::C08, tier, seed, replay),
+        "C10" => drive(&props::c10::C10, tier, seed, replay),
         "C09" => drive(&props::c09::C09, tier, seed, replay),
+        "C12" => drive(&props::c12::C12, tier, seed, replay),
         "C13" => drive(&props::c13::C13, tier, seed, replay),
         "C14" => drive(&props::c14::C14, tier, seed, replay),
+        "C15" => drive(&props::c15::C15, tier, seed, replay),
+        "C18" => drive(&props::c18::C18, tier, seed, replay),
+        "C20" => drive(&props::c20::C20, tier, seed, replay),
         other => harness_error(&format!("unknown property {other}")),
     };
     std::process::exit(code);
